@@ -5,3 +5,9 @@
 
 #[path = "packet_wire.rs"]
 mod wire;
+
+#[path = "packet_srvdump.rs"]
+mod srvdump;
+
+#[path = "packet_dump.rs"]
+mod dump;
